@@ -55,3 +55,75 @@ def conditions(fn, path):
         else:
             res.append((b, t["op"], None, [v for v, tgt in t["targets"]]))
     return res
+
+
+def paths_with_loops(fn, target, start=0, max_visits=3, limit=20000):
+    """Paths start -> target through non-cleanup blocks in which every block is entered at most
+    `max_visits` times (loops unrolled up to that bound); the target is only the last element."""
+    preds = {}
+    for i, b in fn.live_blocks():
+        for s in fn.succs(i):
+            preds.setdefault(s, set()).add(i)
+    can = {target}
+    work = [target]
+    while work:
+        x = work.pop()
+        for p in preds.get(x, ()):
+            if p not in can:
+                can.add(p)
+                work.append(p)
+    out = []
+
+    def dfs(b, path, visits):
+        if len(out) > limit:
+            raise lib.CheckerBroken("more than %d unrolled paths to bb%d in %s" % (limit, target, fn.id))
+        if b == target:
+            out.append(path + [b])
+            return
+        for s in dict.fromkeys(fn.succs(b)):
+            if s in can and not fn.blocks[s]["cleanup"] and visits.get(s, 0) < max_visits:
+                v2 = dict(visits)
+                v2[s] = v2.get(s, 0) + 1
+                dfs(s, path + [b], v2)
+
+    if start in can:
+        dfs(start, [], {start: 1})
+    return out
+
+
+def conditions_at(fn, path):
+    """conditions() for a path with repeated blocks: [(path index, block, switch operand, taken, excluded)]."""
+    res = []
+    for i in range(len(path) - 1):
+        b, nxt = path[i], path[i + 1]
+        t = fn.blocks[b]["term"]
+        if t["k"] != "switch":
+            continue
+        vals = [v for v, tgt in t["targets"] if tgt == nxt]
+        if vals and t["otherwise"] != nxt:
+            res.append((i, b, t["op"], vals, None))
+        elif vals:
+            res.append((i, b, t["op"], None, [v for v, tgt in t["targets"] if tgt != nxt]))
+        else:
+            res.append((i, b, t["op"], None, [v for v, tgt in t["targets"]]))
+    return res
+
+
+def has_cycle(fn):
+    """Does the body (non-cleanup blocks) contain a loop?"""
+    color = {}
+
+    def visit(b):
+        color[b] = 1
+        for s in fn.succs(b):
+            if fn.blocks[s]["cleanup"]:
+                continue
+            if color.get(s) == 1:
+                return True
+            if s not in color and visit(s):
+                return True
+        color[b] = 2
+        return False
+    import sys
+    sys.setrecursionlimit(max(sys.getrecursionlimit(), 10000))
+    return visit(0)
